@@ -603,7 +603,12 @@ func connProperty(prop string, st *vStats) func(t *rapid.T) {
 		st.eval()
 		e2TraceHash(st, o.w)
 		sig, msg := judgeConn(s, o)
-		if sig != "" {
+		if sig != "" && e2Confirmed(st, o.w, func(d []vs.Step) string {
+			o2 := runConn(nil, s, d)
+			defer o2.w.close()
+			s2, _ := judgeConn(s, o2)
+			return s2
+		}) {
 			rep := e2Replay{Scenario: s, Strategy: o.w.strategy, Decisions: o.w.trace(), Events: o.w.names(), TraceTail: o.w.describeTrace(40)}
 			vReport(vViolation{Property: prop, Slot: "rapid:" + prop, Signature: sig, Message: msg, Replay: rep})
 			t.Fatalf("%s violated [%s]: %s\nscenario: %+v\nlast steps:\n%s", prop, sig, msg, s, o.w.describeTrace(30))
